@@ -355,3 +355,190 @@ class Sched:
 
     def any(self):
         return self.rng.choice([self.state_var, self.state_var, self.reusable])()
+
+
+# ------------------------------------------------------------------------------------------------
+# goals that can only be achieved by UNIFICATION: the rule of the predicate is infeasible (`false;`) or an infinite
+# regress, so a goal holds iff it unifies with a fact of the same predicate, i.e. iff all its arguments can be equal to
+# the fact's.  For the reference procedure:  for every goal  OR_facts AND_args (goal.arg == fact.arg), together with the
+# constraints on the argument variables; objects are enum-like constants (pairwise different).
+# ------------------------------------------------------------------------------------------------
+class Unify:
+    def __init__(self, rng):
+        self.rng = rng
+
+    def make(self):
+        """-> dict(family, lines (RIDDLE, facts before goals), lines_goal_first, decls, stmts (constraints, also printed),
+        implicit (unification formulas), enums, planted model or None, twin (the same with the two roles exchanged))"""
+        r = self.rng
+        nargs = r.choice([1, 1, 2, 2, 3])
+        kinds = [r.choice(['real', 'real', 'real', 'int', 'enum', 'obj']) for _ in range(nargs)]
+        nfacts = r.choice([1, 1, 2, 3])
+        ngoals = r.choice([1, 1, 1, 2])
+        uid = [0]
+        decls, cons, M = [], [], {}
+        enums = {}
+        pre = []
+        if 'enum' in kinds:
+            enums['Tint'] = 3
+        objs = []
+        if 'obj' in kinds:
+            enums['Kobj'] = 3                                   # three instances k0 k1 k2, encoded as pairwise different constants
+            objs = ["k0", "k1", "k2"]
+
+        def fresh(p):
+            uid[0] += 1
+            return "%s%d" % (p, uid[0])
+
+        def num_spec(kind, centre, how):
+            """an argument of numeric type: ('const', c) | ('var', name) with constraints on it; returns (spec, lo, hi)"""
+            isint = kind == 'int'
+            w = Fr(r.randint(0, 3))
+            lo, hi = centre - w, centre + w
+            c = r.random()
+            if how == 'const' or c < 0.3:
+                return ('const', centre), centre, centre
+            name = fresh('i' if isint else 'y')
+            decls.append((kind, name))
+            if c < 0.5:
+                return ('var', name, centre), None, None         # free
+            strict_lo = (not isint) and r.random() < 0.15
+            strict_hi = (not isint) and r.random() < 0.15
+            cons.append(_c('gt' if strict_lo else 'ge', {name: 1}, -lo))
+            cons.append(_c('lt' if strict_hi else 'le', {name: 1}, -hi))
+            return ('var', name, centre), lo, hi
+
+        facts = []
+        for f in range(nfacts):
+            args = []
+            for k in kinds:
+                if k in ('real', 'int'):
+                    args.append(num_spec(k, Fr(r.randint(-5, 5)), None)[0])
+                elif k == 'enum':
+                    if r.random() < 0.6:
+                        n = fresh('e')
+                        decls.append(('enum:Tint', n))
+                        args.append(('var', n))
+                    else:
+                        args.append(('econst', r.randrange(3)))
+                else:
+                    if r.random() < 0.5:
+                        args.append(('oconst', r.choice(objs)))
+                    else:
+                        n = fresh('v')
+                        decls.append(('enum:Kobj', n))
+                        args.append(('var', n))
+            facts.append(args)
+        goals = []
+        for g in range(ngoals):
+            # aim the goal at one of the facts: arguments near that fact's
+            tgt = facts[r.randrange(nfacts)]
+            args = []
+            for k, ta in zip(kinds, tgt):
+                if k in ('real', 'int'):
+                    base = ta[1] if ta[0] == 'const' else ta[2]
+                    centre = base + r.choice([0, 0, 0, 1, -1, 2, 3, -3, 4, 6, -6, 9])
+                    args.append(num_spec(k, centre, None)[0])
+                elif k == 'enum':
+                    if r.random() < 0.5:
+                        n = fresh('e')
+                        decls.append(('enum:Tint', n))
+                        args.append(('var', n))
+                    else:
+                        args.append(('econst', r.randrange(3)))
+                else:
+                    if r.random() < 0.6:
+                        args.append(('oconst', r.choice(objs)))
+                    else:
+                        n = fresh('v')
+                        decls.append(('enum:Kobj', n))
+                        args.append(('var', n))
+            goals.append(args)
+        # enum constants cannot be written as literals in an expression: they become variables pinned by the facts only
+        # through unification, so an 'econst' is a fresh variable that is the same in every place where that value is meant
+        evals = {}
+        for side in (facts, goals):
+            for args in side:
+                for i, a in enumerate(args):
+                    if a[0] == 'econst':
+                        if a[1] not in evals:
+                            n = "ec%d" % a[1]
+                            evals[a[1]] = n
+                            decls.append(('enum:Tint', n))
+                        args[i] = ('var', evals[a[1]])
+        ecs = sorted(evals.values())
+        for i in range(len(ecs)):
+            for j in range(i + 1, len(ecs)):
+                cons.append(('c', ('ene', ecs[i], ecs[j])))
+        body = 'regress' if r.random() < 0.1 else 'false'
+        return dict(kinds=kinds, facts=facts, goals=goals, decls=decls, cons=cons, enums=enums, objs=objs, body=body)
+
+    # ---- rendering ----
+    @staticmethod
+    def arg_text(a):
+        if a[0] == 'const':
+            return rl(a[1])
+        if a[0] == 'oconst':
+            return a[1]
+        return a[1]
+
+    def render(self, d, exchanged=False, goal_first=False, force_false=False):
+        kinds = d['kinds']
+        tname = {'real': 'real', 'int': 'int', 'enum': 'Tint', 'obj': 'Kobj'}
+        pars = ", ".join("%s a%d" % (tname[k], i) for i, k in enumerate(kinds))
+        lines = []
+        if 'enum' in kinds:
+            lines.append('enum Tint {"t0", "t1", "t2"};')
+        if 'obj' in kinds:
+            lines.append("class Kobj {}")
+        body = "false;" if (d['body'] == 'false' or force_false) else "goal again = new P(%s);" % ", ".join("a%d:a%d" % (i, i) for i in range(len(kinds)))
+        lines.append("predicate P(%s) { %s }" % (pars, body))
+        for o in d['objs']:
+            lines.append("Kobj %s = new Kobj();" % o)
+        for t, n in d['decls']:
+            if t in ('real', 'int'):
+                lines.append("%s %s;" % (t, n))
+            else:
+                lines.append("%s %s;" % ({'enum:Tint': 'Tint', 'enum:Kobj': 'Kobj'}[t], n))
+
+        def atom(kind, name, args):
+            def one(i, a):
+                if a[0] == 'const' and kinds[i] == 'int':
+                    return "a%d:%d" % (i, a[1])
+                return "a%d:%s" % (i, self.arg_text(a))
+            return "%s %s = new P(%s);" % (kind, name, ", ".join(one(i, a) for i, a in enumerate(args)))
+        fs, gs = (d['goals'], d['facts']) if exchanged else (d['facts'], d['goals'])
+        fl = [atom("fact", "f%d" % i, a) for i, a in enumerate(fs)]
+        gl = [atom("goal", "g%d" % i, a) for i, a in enumerate(gs)]
+        return lines, (gl + fl if goal_first else fl + gl), fs, gs
+
+    def reference(self, d, fs, gs):
+        """(decls, implicit statements) of the reference problem for facts fs and goals gs"""
+        kinds = d['kinds']
+        decls = list(d['decls']) + [('enum:Kobj', o) for o in d['objs']]
+        implicit = []
+        for i in range(len(d['objs'])):
+            for j in range(i + 1, len(d['objs'])):
+                implicit.append(('c', ('ene', d['objs'][i], d['objs'][j])))
+
+        def eq(k, a, b):
+            if k in ('real', 'int'):
+                terms, const = {}, Fr(0)
+                for s, x in ((1, a), (-1, b)):
+                    if x[0] == 'const':
+                        const += s * x[1]
+                    else:
+                        terms[x[1]] = terms.get(x[1], Fr(0)) + s
+                return ('cmp', 'eq', (terms, const))
+            if a[1] == b[1]:
+                return ('or', [('eeq', a[1], a[1]), ('eeq', a[1], a[1])]) if False else None
+            return ('eeq', a[1], b[1])
+        for g in gs:
+            alts = []
+            for f in fs:
+                conj = [e for e in (eq(k, ga, fa) for k, ga, fa in zip(kinds, g, f)) if e is not None]
+                alts.append(('and', conj) if len(conj) > 1 else conj[0] if conj else None)
+            if any(a is None for a in alts):
+                continue                                     # some fact is identical to the goal: trivially unifiable
+            implicit.append(('c', ('or', alts) if len(alts) > 1 else alts[0]))
+        return decls, implicit
